@@ -1,10 +1,54 @@
 /-
-  Driver ops for C16.
+  Driver ops for C16: `schema-resolve` (accept/reject + canonical dump of the resolved schema) and the three
+  hierarchy walks of the validator on the resolved schema (`schema-entdesc`, `schema-actdesc`, `schema-typesin`).
 -/
 import CedarGo.Driver.Ops.Core
+import CedarGo.Driver.CodecC1617
 namespace CedarGo.Driver
-open Lean CedarGo
+open Lean CedarGo CedarGo.Schema
 
-def c16Ops : List (String × Handler) := []
+def getSchemaC1617 (j : Json) : D Schema := do
+  let s ← decSchemaC1617 (← field j "schema")
+  if schemaCollides s then .error "colliding-qualified-names" else .ok s
+
+def showResolve (s : Schema) : String :=
+  match resolve s with
+  | none => "diverges"
+  | some (.error _) => "err"
+  | some (.ok rs) => "ok " ++ dumpResolved rs
+
+def opSchemaResolve : Handler := fun _ j => do
+  .ok (showResolve (← getSchemaC1617 j))
+
+def withResolved (j : Json) (f : RSchema → D String) : D String := do
+  match resolve (← getSchemaC1617 j) with
+  | some (.ok rs) => f rs
+  | _ => .error "unresolved"
+
+def showOptBool : Option Bool → String
+  | none => "diverges"
+  | some true => "true"
+  | some false => "false"
+
+/-- `isEntityDescendant`: fuel = number of entity types + 1; running out of it means a type re-entered the
+    recursion stack, i.e. the Go recursion never returns -/
+def opSchemaEntDesc : Handler := fun _ j => withResolved j fun rs => do
+  .ok (showOptBool (isEntityDescendantFuel rs (rs.entities.length + 1) (← jHex (← field j "a")) (← jHex (← field j "b"))))
+
+def decUIDC16 (j : Json) : D UID := do
+  match ← jArr j with
+  | [t, i] => .ok ((← jHex t), (← jHex i))
+  | _ => .error "bad uid"
+
+def opSchemaActDesc : Handler := fun _ j => withResolved j fun rs => do
+  .ok (showOptBool (isActionDescendantFuel rs (rs.actions.length + 1) (← decUIDC16 (← field j "a")) (← decUIDC16 (← field j "b"))))
+
+def opSchemaTypesIn : Handler := fun _ j => withResolved j fun rs => do
+  match getEntityTypesIn rs (← jHex (← field j "a")) with
+  | none => .ok "diverges"
+  | some ts => .ok (",".intercalate (sortDedup (ts.map hex)))
+
+def c16Ops : List (String × Handler) :=
+  [("schema-resolve", opSchemaResolve), ("schema-entdesc", opSchemaEntDesc), ("schema-actdesc", opSchemaActDesc), ("schema-typesin", opSchemaTypesIn)]
 
 end CedarGo.Driver
